@@ -2,48 +2,19 @@
   PCV.Model.Driver — request dispatch for the native driver `pcvdrv`.  One reply per request line.
 -/
 import PCV.Model.Wire
+import PCV.Model.DrvUtil
 import PCV.Model.KZG10
+import PCV.Model.DrvC12
+import PCV.Model.DrvC13
+import PCV.Model.DrvC14
+import PCV.Model.DrvC15
+import PCV.Model.DrvC16
+import PCV.Model.DrvC18
+import PCV.Model.DrvC19
 namespace PCV
 namespace Driver
 
 variable {p : Nat}
-
-abbrev R := Except String
-
-def need (r : Req) (k : String) : R Val :=
-  match r.get? k with
-  | some v => .ok v
-  | none => .error s!"missing-arg:{k}"
-
-def asNat (v : Val) : R Nat := match v with | .n x => .ok x | _ => .error "expected-nat"
-def asFe (v : Val) : R (Fp p) := match v with | .n x => .ok (Fp.ofNat x) | _ => .error "expected-fe"
-def asList (v : Val) : R (List Val) := match v with | .l xs => .ok xs | _ => .error "expected-list"
-def asFes (v : Val) : R (List (Fp p)) := do let xs ← asList v; xs.mapM asFe
-def asNats (v : Val) : R (List Nat) := do let xs ← asList v; xs.mapM asNat
-def asOpt (v : Val) : R (Option Val) :=
-  match v with | .none => .ok none | .some x => .ok (some x) | _ => .error "expected-option"
-def asOptNat (v : Val) : R (Option Nat) := do
-  match ← asOpt v with | none => pure none | some x => do let n ← asNat x; pure (some n)
-def asOptFe (v : Val) : R (Option (Fp p)) := do
-  match ← asOpt v with | none => pure none | some x => do let n ← asFe x; pure (some n)
-def asBool (v : Val) : R Bool := do let n ← asNat v; pure (n != 0)
-def asFess (v : Val) : R (List (List (Fp p))) := do let xs ← asList v; xs.mapM asFes
-
-def vFe (x : Fp p) : Val := .n x.v
-def vFes (xs : List (Fp p)) : Val := .l (xs.map vFe)
-def vOptFe (x : Option (Fp p)) : Val := match x with | none => .none | some y => .some (vFe y)
-def vBool (b : Bool) : Val := .n (if b then 1 else 0)
-def vNats (xs : List Nat) : Val := .l (xs.map .n)
-
-def okReply (kvs : List (String × Val)) : String :=
-  " ".intercalate ("ok" :: kvs.map fun (k, v) => k ++ "=" ++ v.render)
-
-def errReply (e : Err) : String := "err " ++ e.name
-
-def exceptReply {α} (x : Except Err α) (f : α → List (String × Val)) : String :=
-  match x with
-  | .ok a => okReply (f a)
-  | .error e => errReply e
 
 /-! ### KZG10 -/
 
@@ -98,7 +69,13 @@ def handleKZG (r : Req) : R String := do
 def handle (p : Nat) (r : Req) : String :=
   let res : R String :=
     if r.op.startsWith "kzg." then handleKZG (p := p) r
-    else .error "unknown-op"
+    else
+      let ext : List (Option (Except String String)) :=
+        [DrvC12.handle p r, DrvC13.handle p r, DrvC14.handle p r, DrvC15.handle p r,
+         DrvC16.handle p r, DrvC18.handle p r, DrvC19.handle p r]
+      match ext.findSome? id with
+      | some x => x
+      | none => .error "unknown-op"
   match res with
   | .ok s => s
   | .error e => "bad " ++ e
